@@ -944,7 +944,10 @@ theorem good_removeRec_in (ord : List Nat) (d : Nat) (n : Nat) {s : MState} (c :
       · exact good_sync ord _
       · exact h
 
-theorem good_step (ord : List Nat) (s : MState) (op : Op) (hG : Good s) (hND : ND s) (hW : WFS s) :
+/-- The synchronisation invariant is preserved by every operation; only `DataCollection.remove`
+(which does not re-sync when it drops no link) needs the no-dangling / ownership invariants. -/
+theorem good_step_gen (ord : List Nat) (s : MState) (op : Op) (hG : Good s)
+    (hR : (∀ d, op ≠ .remove d) ∨ (ND s ∧ WFS s)) :
     Good (step ord s op).1 := by
   cases op with
   | newData d comps => exact good_sub hG rfl rfl (fun D h => h)
@@ -962,6 +965,7 @@ theorem good_step (ord : List Nat) (s : MState) (op : Op) (hG : Good s) (hND : N
       split
       · exact good_update ord _
       · rename_i hany
+        obtain ⟨hND, hW⟩ : ND s ∧ WFS s := hR.elim (fun h => absurd rfl (h d)) id
         obtain ⟨G, hGm⟩ := List.exists_mem_of_ne_nil _ (by simpa [List.isEmpty_iff] using hne :
           s.dsets.filter (fun X => X.id == d) ≠ [])
         have hG' := List.mem_filter.mp hGm
@@ -1049,6 +1053,27 @@ theorem good_step (ord : List Nat) (s : MState) (op : Op) (hG : Good s) (hND : N
     split
     · exact hG
     · exact good_sync ord _
+
+theorem good_step (ord : List Nat) (s : MState) (op : Op) (hG : Good s) (hND : ND s) (hW : WFS s) :
+    Good (step ord s op).1 := good_step_gen ord s op hG (Or.inr ⟨hND, hW⟩)
+
+/-- A history in which no dataset is removed from the collection. -/
+def noRemove : List (Op × List Nat) → Bool
+  | [] => true
+  | (.remove _, _) :: _ => false
+  | _ :: r => noRemove r
+
+/-- The synchronisation invariant along ANY history without `DataCollection.remove` — no
+well-formedness assumption (dangling links, foreign cids, `update_id` on link endpoints allowed). -/
+theorem good_run_noRemove (s : MState) (ops : List (Op × List Nat)) (hG : Good s)
+    (hn : noRemove ops = true) : Good (run s ops) := by
+  induction ops generalizing s with
+  | nil => exact hG
+  | cons a r ih =>
+    obtain ⟨op, ord⟩ := a
+    have h1 : (∀ d, op ≠ .remove d) ∧ noRemove r = true := by
+      cases op <;> simp_all [noRemove]
+    exact ih _ (good_step_gen ord s op hG (Or.inl h1.1)) h1.2
 
 theorem good_init : Good MState.init := by
   intro _ D hD
